@@ -113,6 +113,9 @@ def run(spec, R):
         # feature values that are spelled like punctuation categories or contain other legal characters
         atoms = atoms + [('A', b, ('U', f)) for b in ('S', 'NP') for f in ('conj', 'LRB', 'RRB', 'a=b', 'x,y', 'thr', '*START*')]
         atoms = atoms + [('A', 'NP', ('T', (('mod', 'nm'), ('mod', 'nm'), ('fin', 'f'))))]      # a repeated key is still three parts
+        # the three parts are kept in the order they are written, whatever their keys
+        atoms = atoms + [('A', 'NP', ('T', (('mod', 'nm'), ('case', 'nc'), ('fin', 't')))), ('A', 'S', ('T', (('fin', 'f'), ('form', 'base'), ('mod', 'X1')))),
+                         ('A', 'S', ('T', (('form', 'X2'), ('mod', 'adn'), ('fin', 'f')))), ('A', 'NP', ('T', (('fin', 't'), ('case', 'ga'), ('mod', 'nm'))))]
     if spec['kind'] == 'repotests':
         from vlib import repotests
         repotests.run_repo_tests(R, ['tests/test_cat.py'], lambda: None)
